@@ -457,6 +457,8 @@ impl ThreadPoolState {
 
         let receiver = self.receiver.clone();
         loop {
+            #[cfg(egglog_verif)]
+            crate::verif::perturb(12);
             match done.try_recv() {
                 Ok(()) => break,
                 Err(crossbeam::channel::TryRecvError::Empty) => {}
@@ -710,10 +712,14 @@ impl<'scope> Scope<'scope> {
             if let Err(payload) = result {
                 scope.state.record_panic(payload);
             }
+            #[cfg(egglog_verif)]
+            crate::verif::perturb(11);
             scope.state.complete_one();
         });
 
         self.state.expect_one();
+        #[cfg(egglog_verif)]
+        crate::verif::perturb(10);
         // SAFETY: every erased job records completion in the scope state, and
         // `Scope::complete_root_and_wait` waits for all expected completions
         // before `ThreadPool::scope` returns.
@@ -721,6 +727,8 @@ impl<'scope> Scope<'scope> {
     }
 
     fn complete_root_and_wait(&self) {
+        #[cfg(egglog_verif)]
+        crate::verif::perturb(14);
         if !self.state.complete_one() {
             // SAFETY: the scope is created from a live `ThreadPoolState`, and
             // `ThreadPool::drop` joins all workers before dropping that boxed
@@ -954,6 +962,8 @@ fn spawn_worker(receiver: Receiver<Job>, pool: ThreadPoolStatePtr) -> JoinHandle
         install_pool(pool, || {
             install_background_worker(|| {
                 for job in receiver {
+                    #[cfg(egglog_verif)]
+                    crate::verif::perturb(13);
                     job();
                 }
             });
